@@ -254,4 +254,29 @@ def periodsFromUntil (a b : Period) (step : Int) : R (List Period) := do
   if step = 0 then throw .badInput
   pure ((pyRange a.serial (b.serial + 1) step).map (fun x => ⟨a.freq, x⟩))
 
+/-- `spans_from_short_span(short, max_lag, max_lead)`: the iterable enters only through its first and last
+period (`short_span[0]`, `short_span[-1]`); the code re-binds `short_span` to the unit-step `periods_from_until` tuple
+and indexes *that* tuple for the long span, so an inverted pair (`first > last`, empty tuple) is an `IndexError`. -/
+def spansFromShortSpan (a b : Period) (maxLag maxLead : Int) : R (List Period × List Period) := do
+  let short ← periodsFromUntil a b 1
+  match short.head?, short.getLast? with
+  | some a', some b' =>
+    let long ← periodsFromUntil (a'.add maxLag) (b'.add maxLead) 1
+    pure (short, long)
+  | _, _ => throw .badInput
+
+/-- `spans_from_long_span(long, max_lag, max_lead)`: the inverse construction (`long[0] - max_lag`, `long[-1] - max_lead`,
+again indexed on the re-bound tuple). -/
+def spansFromLongSpan (a b : Period) (maxLag maxLead : Int) : R (List Period × List Period) := do
+  let long ← periodsFromUntil a b 1
+  match long.head?, long.getLast? with
+  | some a', some b' =>
+    let short ← periodsFromUntil (a'.subInt maxLag) (b'.subInt maxLead) 1
+    pure (short, long)
+  | _, _ => throw .badInput
+
+/-- `extend_span(span, min_shift, max_shift, prepend_initial, append_terminal)` on the first and last period. -/
+def extendSpan (a b : Period) (minShift maxShift : Int) (prependInitial appendTerminal : Bool) : Period × Period :=
+  (a.add (if prependInitial then minShift else 0), b.add (if appendTerminal then maxShift else 0))
+
 end IrisVerif.Dates
